@@ -250,6 +250,12 @@ class C16:
                                     'mode': rng.choice(['L', 'I;16'])},
                        tags={'k': 'raw'})
                 sp = rng.choice([0.1, [0.1, 0.3], rfloat(rng, 0.01, 2, 3)])
+                if rng.random() < 0.25:
+                    # the spacing in another container: a tuple, or the
+                    # array that get_spacing(other_image) returns
+                    pair = [rfloat(rng, 0.01, 2, 3), rfloat(rng, 0.01, 2, 3)]
+                    sp = rng.choice([{'tuple': pair}, {'arr': pair},
+                                     {'arr': pair}])
                 channel = None
                 if ch:
                     channel = rng.choice([0, 1, 2, [0, 1], [0, 2],
@@ -623,6 +629,8 @@ class C16:
             return
         p = rec['payload']
         sp = ev['args']['spacing']
+        if isinstance(sp, dict):
+            sp = sp.get('tuple') or sp.get('arr')
         sp = sp if isinstance(sp, list) else [sp, sp]
         xs = np.asarray(p['coords']['x']['values'], float)
         ys = np.asarray(p['coords']['y']['values'], float)
